@@ -11,7 +11,13 @@ Generated
            levels, spin states, obliquity, every rheology incl. CPL/CTL, scalar/array).
   solver   a BATCH of 2..4 (degree, m_l, w tau, w) members on one planet and rheology, each the same uniform body as `formula`,
            solved by `TidalPy.RadialSolver.radial_solver`; all solution objects and the Love-number arrays read from them
-           stay alive until the whole batch is solved and are only then read back and judged
+           stay alive until the whole batch is solved and are only then read back and judged.  In 3 of 4 solver cases the
+           uniform body is handed over as a stack of 1..3 solid layers of IDENTICAL material at generated interface radii
+           (0.35..0.9 R, both sides of every interface sampled: r_i and r_i (1 + 1e-13)) with generated (static,
+           incompressible) flags per layer (innermost: static/compressible, dynamic/compressible, dynamic/incompressible -
+           the combinations with starting conditions); layers flagged incompressible carry a finite bulk modulus 1e9..1e12 Pa
+           (documented as ignored), the others the compressible-limit value; with a dynamic layer the solver's forcing
+           frequency is the quasi-static w^2 R/g = 1e-7
            (one solid static layer, Kamata starting conditions, DOP853, bulk modulus 10^[5,7] x max(|mu~|,
            rho g R) i.e. effectively incompressible - the static/incompressible combination itself raises
            NotImplementedError -, r0/R in [0.05,0.3], 20..80 slices, complex shear mu~ = 1/J).
@@ -42,11 +48,13 @@ Oracles
              The quick_tidal_dissipation call must not modify its keyword arguments (inputs_not_mutated).
   solver     (every stored solution of the batch, read back after the whole batch) (k, h, l) re-read from the stored solution
              object, and the array views taken right after its own call, are bit-identical to the values read right after that
-             call (`stored_solution_changed`); and
+             call (`stored_solution_changed`); and, with K the compressible-limit bulk modulus of the layers NOT flagged
+             incompressible (term dropped when every layer is flagged incompressible) and + 30 * 1e-7 when a layer is dynamic,
              |k_RS - k_closed| <= 1e-6 + 50 delta + 3 (|mu~| + rho g R)/K,  delta = |k(rtol=1e-7) - k(rtol=1e-9)|
              (atol = 1e-4 rtol); discarded (counted) if a solve reports success=False or delta > 1e-4.
-             Calibration (105 generated cases): delta <= 5e-9, error <= 1.6e-7 and <= 0.015 (|mu~|+rho g R)/K, i.e.
-             <= 0.5 % of the tolerance; the precedence defect a47eb3a moves k by 1e-3 (stiff) .. 0.3 (intermediate).
+             Calibration (105 generated one-layer cases): delta <= 5e-9, error <= 1.6e-7 and <= 0.015 (|mu~|+rho g R)/K, i.e.
+             <= 0.5 % of the tolerance; layered / dynamic configurations (390 solves): error <= 8.4 % of the tolerance (worst:
+             one dynamic incompressible layer, where only 1e-6 + 50 delta + 3e-6 is allowed); the precedence defect a47eb3a moves k by 1e-3 (stiff) .. 0.3 (intermediate).
   Calibration of the closed-form clauses (3000 generated cases): rigidity 3.6e-16, love 3.0e-16 x condition number,
   l2 helpers bit-identical, quick (single-frequency equality) 5.8e-16.
 
@@ -60,6 +68,8 @@ Sensitivity (tools/mut.py, quick tier, all CAUGHT):
   mode_manipulation.py 'order_l=tidal_order_l\n                )\n\n        # Pull' i.e. collapse_modes passing order_l=2
              for every degree                                       -> quick (l = 3)
   seeded/C12-1 (tabulated (2l^2+4l+3)/l with a typo)              -> rigidity, love
+  seeded/C12-4 (static+incompressible solid layers integrated with the compressible equations, i.e. with the caller's finite K)
+                                                                                        -> solver (k_l, layered stacks)
   seeded/C12-3 (all RadialSolverSolution objects share one static Love-number buffer)   -> solver (stored_solution_changed, k_l)
   seeded/C12-2 (Love number memoised per frequency signature without the degree) -> quick (l>2, hull)
   Equivalent mutant, must be MISSED (and is): mode_manipulation.py 'n_sig = abs(n_coeff)' -> 'n_sig = n_coeff' (more
@@ -191,14 +201,14 @@ def strategy(tier):
         'batch': st.lists(st.fixed_dictionaries({'l': st.integers(2, 7 if tier == 'thorough' else 6),
                                                  'log_ml': st.floats(-2.0, 3.0), 'log_wtau': st.floats(-3.0, 4.0),
                                                  'log_freq': st.floats(-7.0, -3.0)}), min_size=1, max_size=3),
-        'stack': st.one_of(st.none(), st.fixed_dictionaries({
+        'stack': tc.weighted([st.none(), st.fixed_dictionaries({
             'bottom': st.sampled_from(BOTTOM_FLAGS),
             'upper': st.lists(st.tuples(st.floats(0.35, 0.9), st.booleans(), st.booleans()).map(list), min_size=0, max_size=2),
-            'log_K_incomp': st.floats(9.0, 12.0)})),
+            'log_K_incomp': st.floats(9.0, 12.0)})], [1, 3]),
         'r0_frac': st.floats(0.05, 0.3), 'slices': st.integers(20, 80), 'log_K_factor': st.floats(5.0, 7.0)})
     quick = tc.tide_case_strategy(tier, kinds=('single',), finding_weight=0.25).map(lambda c: dict(c, kind='quick'))
     kinds = [formula, quick, solver]
-    weights = [40, 8, 1] if tier == 'quick' else [40, 6, 2]
+    weights = [40, 8, 2] if tier == 'quick' else [40, 6, 3]
     return tc.weighted(kinds, weights)
 
 
@@ -219,7 +229,9 @@ def fixed_cases(tier):
 
 
 def required_labels(tier):
-    return ['kind:formula', 'kind:quick', 'kind:solver', 'solver:converged', 'solver:batch2', 'solver:batch3', 'solver:batch4', 'array', 'scalar', 'quick:single_freq',
+    return ['kind:formula', 'kind:quick', 'kind:solver', 'solver:converged', 'solver:batch2', 'solver:batch3', 'solver:batch4', 'solver:layers1', 'solver:layers2',
+            'solver:layers3', 'upper:static_incomp', 'upper:dynamic_incomp', 'upper:static_comp', 'upper:dynamic_comp',
+            'bottom:static_comp', 'bottom:dynamic_comp', 'bottom:dynamic_incomp', 'array', 'scalar', 'quick:single_freq',
             'quick:multi_freq'] + ['l:%d' % l for l in range(2, 8)] + ['regime:stiff', 'regime:mid', 'regime:soft']
 
 
